@@ -166,7 +166,9 @@ class Ctx:
         try:
             try:
                 inst = execsub.build_instance(low, build_dir=bdir)
-            except Exception as e:
+            except BaseException as e:  # pyo3 PanicException derives from BaseException
+                if isinstance(e, (KeyboardInterrupt, SystemExit)) or type(e).__name__ == "CaseTimeout":
+                    raise
                 raise HarnessError(f"selene build: {type(e).__name__}: {str(e)[:2000]}") from e
             em = EmulatorInstance(_instance=inst, _n_qubits=n_qubits).with_shots(shots)
             if sim == "auto":
